@@ -33,74 +33,6 @@ Proof. intros [a b] [a' b'] [] X H1 H2; unfold pgx_marks2, pgsp_upd; cbn in *; r
 Lemma pgq_W_of_gets : forall w' d Kd Ks, pgx_st (pg_get w' d) Kd -> pgx_st (pg_get w' (negb d)) Ks -> pgx_W w'.
 Proof. intros [a' b'] [] Kd Ks H1 H2; split; cbn in *; eauto. Qed.
 
-(* one insertion of a page of the other document, in the form of the step lemma *)
-Lemma pgq_step_insert_foreign : forall w d i n Kd Ks di,
-  pgx_st (pg_get w d) Kd -> pgx_st (pg_get w (negb d)) Ks -> pd_all (pg_get w (negb d)) <> [] ->
-  pg_omap_wf (pg_get w d) -> pgq_operand w d i ->
-  pg_lookup (pd_store (pg_get w (negb d))) i = Some (PcObj (PvDict di)) -> pgx_plain di -> (n <= length Kd)%nat ->
-  snd (pg_insert w d (PhObj (negb d) i) (Z.of_nat n)) = None ->
-  (forall s1 di', pg_push (pg_get w (negb d)) false = (s1, None) -> pg_lookup (pd_store s1) i = Some (PcObj (PvDict di')) -> NoDup (map fst di')) ->
-  let h := PhObj (negb d) i in
-  let '(w', e) := pg_insert w d h (Z.of_nat n) in
-  let '(s', raise_) := pg_spec_step (pgx_marks2 w) (if pg_insertable w d h then SpInsert d n (pg_operand_mark w h) else SpInvalid) in
-  pgx_marks2 w' = s' /\ pg_is_err (pg_res_of e) = raise_ /\
-  (exists Kd', pgx_st (pg_get w' d) Kd') /\ pgx_st (pg_get w' (negb d)) Ks.
-Proof.
-  intros w d i n Kd Ks di Hstd Hsts Hsall Hwf Hop Hdi Hpl Hn Hsucc Hnd. cbv zeta.
-  destruct (pg_insertable w d (PhObj (negb d) i)) eqn:Hins.
-  - pose proof (foreign_page_insert_general_lemma w d i (Z.of_nat n) Kd Ks di Hstd Hsts Hsall Hwf Hop Hdi Hpl Hins) as H.
-    specialize (H ltac:(unfold pg_len; lia) Hsucc Hnd). cbv zeta in H.
-    destruct (pg_insert w d (PhObj (negb d) i) (Z.of_nat n)) as [w' e]. cbn [fst snd] in *. subst e.
-    destruct H as (ni & Hnin & Hst' & Hmk & Hsts' & Hmks).
-    cbn [pg_spec_step]. rewrite pgx_marks2_sel, (pgx_marks_length _ Kd (pgx_st_flat _ _ Hstd)).
-    assert (Nat.leb n (length Kd) = true) as -> by (apply Nat.leb_le; exact Hn).
-    split; [|split; [reflexivity|split; [eexists; exact Hst'|exact Hsts']]].
-    rewrite Nat2Z.id in Hmk. unfold pg_operand_mark, pg_norm. rewrite Hdi.
-    apply pgq_marks2_of_gets; assumption.
-  - exfalso. unfold pg_insert in Hsucc. rewrite Hins in Hsucc. cbn in Hsucc. discriminate.
-Qed.
-
-Lemma pgq_insertable_foreign_put : forall w d i p1,
-  pg_insertable (pg_put w d p1) d (PhObj (negb d) i) = pg_insertable w d (PhObj (negb d) i) /\
-  pg_operand_mark (pg_put w d p1) (PhObj (negb d) i) = pg_operand_mark w (PhObj (negb d) i).
-Proof.
-  intros w d i p1. unfold pg_insertable, pg_operand_mark, pg_norm.
-  assert (E : pg_get (pg_put w d p1) (negb d) = pg_get w (negb d)) by apply pg_get_put_other. rewrite E.
-  destruct (pg_lookup (pd_store (pg_get w (negb d))) i); [rewrite E|rewrite pg_get_put_same]; split; reflexivity.
-Qed.
-
-(* ... made after the lazy part of the same call (findPage / getAllPages on the destination) has run *)
-Lemma pgq_step_insert_foreign_after : forall w d i n Kd Ks di p1,
-  pgx_st (pg_get w d) Kd -> pgx_st (pg_get w (negb d)) Ks -> pd_all (pg_get w (negb d)) <> [] ->
-  pg_omap_wf (pg_get w d) -> pgq_operand w d i ->
-  pgx_st p1 Kd -> pgx_sim (pd_store (pg_get w d)) (pd_store p1) -> pd_root p1 = pd_root (pg_get w d) -> pd_omap p1 = pd_omap (pg_get w d) ->
-  pg_lookup (pd_store (pg_get w (negb d))) i = Some (PcObj (PvDict di)) -> pgx_plain di -> (n <= length Kd)%nat ->
-  snd (pg_insert (pg_put w d p1) d (PhObj (negb d) i) (Z.of_nat n)) = None ->
-  (forall s1 di', pg_push (pg_get w (negb d)) false = (s1, None) -> pg_lookup (pd_store s1) i = Some (PcObj (PvDict di')) -> NoDup (map fst di')) ->
-  let h := PhObj (negb d) i in
-  let '(w', e) := pg_insert (pg_put w d p1) d h (Z.of_nat n) in
-  let '(s', raise_) := pg_spec_step (pgx_marks2 w) (if pg_insertable w d h then SpInsert d n (pg_operand_mark w h) else SpInvalid) in
-  pgx_marks2 w' = s' /\ pg_is_err (pg_res_of e) = raise_ /\
-  (exists Kd', pgx_st (pg_get w' d) Kd') /\ pgx_st (pg_get w' (negb d)) Ks.
-Proof.
-  intros w d i n Kd Ks di p1 Hstd Hsts Hsall Hwf Hop Hst1 Hsim Hr Ho Hdi Hpl Hn Hsucc Hnd. cbv zeta.
-  set (w1 := pg_put w d p1) in *.
-  assert (Eb : pg_get w1 (negb d) = pg_get w (negb d)) by apply pg_get_put_other.
-  assert (Ed : pg_get w1 d = p1) by apply pg_get_put_same.
-  assert (Hwf1 : pg_omap_wf (pg_get w1 d)).
-  { rewrite Ed. destruct Hwf as [A B]. split; rewrite Ho; [|exact B]. intros og l Hl. eapply pgx_sim_some; [exact Hsim|eapply A; exact Hl]. }
-  assert (Hop1 : pgq_operand w1 d i).
-  { unfold pgq_operand in *. rewrite Ed, Eb, Ho. destruct (pg_omap_find (pd_omap (pg_get w d)) i) as [l|]; [|exact I].
-    destruct Hop as (dl & Edl & Ldl & Hlr & Hmk). destruct (pgx_sim_dict _ _ _ _ Hsim Edl) as (dl1 & Edl1 & Sdl1).
-    exists dl1. split; [exact Edl1|]. split; [exact (pgx_leafy_sim _ _ Ldl Sdl1)|]. split; [rewrite Hr; exact Hlr|].
-    rewrite <- Hmk. unfold pg_mark. rewrite (pgx_sim_mark _ _ l Hsim); [reflexivity|rewrite Edl; discriminate]. }
-  pose proof (pgq_step_insert_foreign w1 d i n Kd Ks di) as H. rewrite Ed, Eb in H.
-  specialize (H Hst1 Hsts Hsall). rewrite Ed in Hwf1. specialize (H Hwf1 Hop1 Hdi Hpl Hn Hsucc Hnd). cbv zeta in H.
-  destruct (pgq_insertable_foreign_put w d i p1) as [Ei Em]. fold w1 in Ei, Em. rewrite Ei, Em in H.
-  assert (pgx_marks2 w1 = pgx_marks2 w) as Hm by (apply pgx_marks2_put_same; eapply pgx_marks_st_sim; eassumption).
-  rewrite Hm in H. exact H.
-Qed.
-
 (* a successful insertion of a page of the other document, taken apart: flattenPagesTree of the destination,
    pushInheritedAttributesToPage of the source, the copy, Pages::insert of the local copy *)
 Lemma pgq_insert_foreign_decomp : forall w d i pos,
@@ -253,4 +185,224 @@ Proof.
   rewrite Eil in Hrun3. inversion Hrun3. subst p3'.
   exists ni. rewrite Egd, Egb. split; [exact Hnin|]. split; [exact Hst3|]. split; [rewrite Hmk3, Hm12, Hmkl; reflexivity|].
   split; [exact Hsts1|eapply pgx_marks_st_sim; eassumption].
+Qed.
+
+(* one insertion of a page of the other document, in the form of the step lemma *)
+Lemma pgq_step_insert_foreign : forall w d i n Kd Ks di,
+  pgx_st (pg_get w d) Kd -> pgx_st (pg_get w (negb d)) Ks -> pd_all (pg_get w (negb d)) <> [] ->
+  pg_omap_wf (pg_get w d) -> pgq_operand2 w d i di -> pgs_doc (pg_get w (negb d)) ->
+  pg_lookup (pd_store (pg_get w (negb d))) i = Some (PcObj (PvDict di)) -> pgx_plain di -> (n <= length Kd)%nat ->
+  snd (pg_insert w d (PhObj (negb d) i) (Z.of_nat n)) = None ->
+  let h := PhObj (negb d) i in
+  let '(w', e) := pg_insert w d h (Z.of_nat n) in
+  let '(s', raise_) := pg_spec_step (pgx_marks2 w) (if pg_insertable w d h then SpInsert d n (pg_operand_mark w h) else SpInvalid) in
+  pgx_marks2 w' = s' /\ pg_is_err (pg_res_of e) = raise_ /\
+  (exists Kd', pgx_st (pg_get w' d) Kd') /\ pgx_st (pg_get w' (negb d)) Ks.
+Proof.
+  intros w d i n Kd Ks di Hstd Hsts Hsall Hwf Hop Hnd Hdi Hpl Hn Hsucc. cbv zeta.
+  destruct (pg_insertable w d (PhObj (negb d) i)) eqn:Hins.
+  - pose proof (foreign_page_insert_all_lemma w d i (Z.of_nat n) Kd Ks di Hstd Hsts Hsall Hwf Hop Hnd Hdi Hpl Hins) as H.
+    specialize (H ltac:(unfold pg_len; lia) Hsucc). cbv zeta in H.
+    destruct (pg_insert w d (PhObj (negb d) i) (Z.of_nat n)) as [w' e]. cbn [fst snd] in *. subst e.
+    destruct H as (ni & Hnin & Hst' & Hmk & Hsts' & Hmks).
+    cbn [pg_spec_step]. rewrite pgx_marks2_sel, (pgx_marks_length _ Kd (pgx_st_flat _ _ Hstd)).
+    assert (Nat.leb n (length Kd) = true) as -> by (apply Nat.leb_le; exact Hn).
+    split; [|split; [reflexivity|split; [eexists; exact Hst'|exact Hsts']]].
+    rewrite Nat2Z.id in Hmk. unfold pg_operand_mark, pg_norm. rewrite Hdi.
+    apply pgq_marks2_of_gets; assumption.
+  - exfalso. unfold pg_insert in Hsucc. rewrite Hins in Hsucc. cbn in Hsucc. discriminate.
+Qed.
+
+Lemma pgq_insertable_foreign_put : forall w d i p1,
+  pg_insertable (pg_put w d p1) d (PhObj (negb d) i) = pg_insertable w d (PhObj (negb d) i) /\
+  pg_operand_mark (pg_put w d p1) (PhObj (negb d) i) = pg_operand_mark w (PhObj (negb d) i).
+Proof.
+  intros w d i p1. unfold pg_insertable, pg_operand_mark, pg_norm.
+  assert (E : pg_get (pg_put w d p1) (negb d) = pg_get w (negb d)) by apply pg_get_put_other. rewrite E.
+  destruct (pg_lookup (pd_store (pg_get w (negb d))) i); [rewrite E|rewrite pg_get_put_same]; split; reflexivity.
+Qed.
+
+(* ... made after the lazy part of the same call (findPage / getAllPages on the destination) has run *)
+Lemma pgq_step_insert_foreign_after : forall w d i n Kd Ks di p1,
+  pgx_st (pg_get w d) Kd -> pgx_st (pg_get w (negb d)) Ks -> pd_all (pg_get w (negb d)) <> [] ->
+  pg_omap_wf (pg_get w d) -> pgq_operand2 w d i di -> pgs_doc (pg_get w (negb d)) ->
+  pgx_st p1 Kd -> pgx_sim (pd_store (pg_get w d)) (pd_store p1) -> pd_root p1 = pd_root (pg_get w d) -> pd_omap p1 = pd_omap (pg_get w d) ->
+  pg_lookup (pd_store (pg_get w (negb d))) i = Some (PcObj (PvDict di)) -> pgx_plain di -> (n <= length Kd)%nat ->
+  snd (pg_insert (pg_put w d p1) d (PhObj (negb d) i) (Z.of_nat n)) = None ->
+  let h := PhObj (negb d) i in
+  let '(w', e) := pg_insert (pg_put w d p1) d h (Z.of_nat n) in
+  let '(s', raise_) := pg_spec_step (pgx_marks2 w) (if pg_insertable w d h then SpInsert d n (pg_operand_mark w h) else SpInvalid) in
+  pgx_marks2 w' = s' /\ pg_is_err (pg_res_of e) = raise_ /\
+  (exists Kd', pgx_st (pg_get w' d) Kd') /\ pgx_st (pg_get w' (negb d)) Ks.
+Proof.
+  intros w d i n Kd Ks di p1 Hstd Hsts Hsall Hwf Hop Hnd Hst1 Hsim Hr Ho Hdi Hpl Hn Hsucc. cbv zeta.
+  set (w1 := pg_put w d p1) in *.
+  assert (Eb : pg_get w1 (negb d) = pg_get w (negb d)) by apply pg_get_put_other.
+  assert (Ed : pg_get w1 d = p1) by apply pg_get_put_same.
+  assert (Hwf1 : pg_omap_wf (pg_get w1 d)).
+  { rewrite Ed. destruct Hwf as [A B]. split; rewrite Ho; [|exact B]. intros og l Hl. eapply pgx_sim_some; [exact Hsim|eapply A; exact Hl]. }
+  assert (Hop1 : pgq_operand2 w1 d i di).
+  { unfold pgq_operand2 in *. rewrite Ed, Eb, Ho. destruct (pg_omap_find (pd_omap (pg_get w d)) i) as [l|] eqn:El; [|exact I].
+    destruct Hop as [[Hnull Hty]|(dl & Edl & Ldl & Hlr & Hmk)].
+    { left. split; [|exact Hty]. rewrite (pgq_sim_null _ _ l Hsim); [exact Hnull|]. destruct Hwf as [A _]. eapply A, El. }
+    right. destruct (pgx_sim_dict _ _ _ _ Hsim Edl) as (dl1 & Edl1 & Sdl1).
+    exists dl1. split; [exact Edl1|]. split; [exact (pgx_leafy_sim _ _ Ldl Sdl1)|]. split; [rewrite Hr; exact Hlr|].
+    rewrite <- Hmk. unfold pg_mark. rewrite (pgx_sim_mark _ _ l Hsim); [reflexivity|rewrite Edl; discriminate]. }
+  pose proof (pgq_step_insert_foreign w1 d i n Kd Ks di) as H. rewrite Ed, Eb in H.
+  specialize (H Hst1 Hsts Hsall). rewrite Ed in Hwf1. specialize (H Hwf1 Hop1 Hnd Hdi Hpl Hn Hsucc). cbv zeta in H.
+  destruct (pgq_insertable_foreign_put w d i p1) as [Ei Em]. fold w1 in Ei, Em. rewrite Ei, Em in H.
+  assert (pgx_marks2 w1 = pgx_marks2 w) as Hm by (apply pgx_marks2_put_same; eapply pgx_marks_st_sim; eassumption).
+  rewrite Hm in H. exact H.
+Qed.
+
+
+(* ------------------------------------------------------------------ the world invariant with memo and sorted stores *)
+Definition pgq_W (w : pg_world) : Prop :=
+  pgx_W w /\ pgs_world w /\ (forall d, pgq_memo (pg_get w (negb d)) (pg_get w d)).
+
+(* the explicit targets of replaceObject / swapObjects in document d *)
+Definition pgq_E (o : pg_op) (d : bool) (j : N) : Prop :=
+  match o with
+  | PoReplace d' i _ | PoReplaceInd d' i _ => d' = d /\ j = i
+  | PoSwap d' i k => d' = d /\ (j = i \/ j = k)
+  | _ => False
+  end.
+
+(* "if you mutate an object that has already been copied and try to copy it again, it won't work" (QPDF.hh): the objects a
+   call replaces or swaps are neither copies of objects of the other document nor objects that were copied into it *)
+Definition pgq_untaint (w : pg_world) (o : pg_op) : Prop :=
+  forall d j, pgq_E o d j ->
+    (forall a l, pg_omap_find (pd_omap (pg_get w d)) a = Some l -> l <> j) /\
+    (forall l, pg_omap_find (pd_omap (pg_get w (negb d))) j = Some l -> pg_is_null (pd_store (pg_get w d)) (PvRef j) = true).
+
+(* an insertion call whose operand is an object of the other document *)
+Definition pgq_foreign (w : pg_world) (o : pg_op) : option (bool * N) :=
+  match o with
+  | PoAddPage d h _ | PoHAddPage d h _ | PoAddPageAt d h _ _ =>
+      match pg_norm w h with PhObj b i => if Bool.eqb b d then None else Some (d, i) | PhDirect _ => None end
+  | _ => None
+  end.
+
+Definition pgq_cf (w : pg_world) (o : pg_op) : option (bool * bool * N) :=
+  match o with
+  | PoCopyForeign d h => match pg_norm w h with PhObj b i => if Bool.eqb b d then None else Some (d, b, i) | PhDirect _ => None end
+  | _ => None
+  end.
+
+(* what the caller has to know about a memoised copy: it is still a leaf dictionary and not the catalog (that it still
+   carries the page's marker follows from the memo invariant) *)
+Definition pgq_operand3 (w : pg_world) (d : bool) (i : N) (di : pg_dict) : Prop :=
+  let dst := pg_get w d in
+  match pg_omap_find (pd_omap dst) i with
+  | None => True
+  | Some l =>
+      (pg_is_null (pd_store dst) (PvRef l) = true /\ pg_dget di pgk_Type = PvName pgk_Page) \/
+      (exists dl, pg_lookup (pd_store dst) l = Some (PcObj (PvDict dl)) /\ pgx_leafy dl /\ l <> pd_root dst)
+  end.
+
+Lemma pgq_operand3_2 : forall w d i di, pgq_memo (pg_get w (negb d)) (pg_get w d) -> pgq_operand3 w d i di -> pgq_operand2 w d i di.
+Proof.
+  intros w d i di [_ Hm] H. unfold pgq_operand3, pgq_operand2 in *. destruct (pg_omap_find (pd_omap (pg_get w d)) i) as [l|] eqn:E; [|exact I].
+  destruct H as [H|(dl & Edl & Ldl & Hr)]; [left; exact H|right].
+  exists dl. repeat (split; [assumption|]). destruct (Hm i l E) as [Hn|[_ Hmk]]; [|exact Hmk].
+  unfold pg_is_null in Hn. rewrite Edl in Hn. discriminate.
+Qed.
+
+(* the calls covered: those of pgx_adm2, now with pages of the other document as insertion operands (the source's page
+   cache is filled - one gets a page handle from getAllPages -, the operand is a plain dictionary, the destination knows it
+   in one of the three ways of pgq_operand3, and the call does not fail), with sorted operand values and without
+   replaceObject / swapObjects on objects that take part in a copy relation *)
+Definition pgq_adm (w : pg_world) (o : pg_op) : Prop :=
+  pgs_op o /\ pgq_untaint w o /\
+  match pgq_foreign w o with
+  | Some (d, i) =>
+      pd_all (pg_get w (negb d)) <> [] /\
+      (exists di, pg_lookup (pd_store (pg_get w (negb d))) i = Some (PcObj (PvDict di)) /\ pgx_plain di /\ pgq_operand3 w d i di) /\
+      pg_is_err (snd (pg_step w o)) = false
+  | None =>
+      pgx_adm2 w o /\ match pgq_cf w o with Some (d, b, i) => pd_all (pg_get w b) <> [] | None => True end
+  end.
+
+Lemma pgq_norm_obj_eq : forall w h b i, pg_norm w h = PhObj b i -> h = PhObj b i.
+Proof.
+  intros w h b i H. unfold pg_norm in H. destruct h as [v|b0 i0]; [discriminate|].
+  destruct (pg_lookup (pd_store (pg_get w b0)) i0); [exact H|discriminate].
+Qed.
+
+Lemma pgq_nodup_after_push : forall p i, pgs_doc p ->
+  forall s1 di', pg_push p false = (s1, None) -> pg_lookup (pd_store s1) i = Some (PcObj (PvDict di')) -> NoDup (map fst di').
+Proof.
+  intros p i Hs s1 di' E El. pose proof (pgs_push _ false Hs) as H. rewrite E in H. cbn [fst] in H.
+  apply pgs_nodup. pose proof (H i _ El) as Hc. cbn [pgs_cell] in Hc. apply pgs_val_dict in Hc. apply Hc.
+Qed.
+
+(* the list refinement of an insertion call with a page of the other document *)
+Lemma pgq_step_refines_foreign : forall w o d i,
+  pgq_W w -> pgq_adm w o -> pgq_foreign w o = Some (d, i) ->
+  let '(w', r) := pg_step w o in
+  let '(s', raise_) := pg_spec_step (pgx_marks2 w) (pgx_abs w o) in
+  pgx_marks2 w' = s' /\ pg_is_err r = raise_ /\ pgx_W w'.
+Proof.
+  intros w o d i (HW & HS & HM) (_ & _ & Hadm) Hf. rewrite Hf in Hadm. destruct Hadm as (Hsall & (di & Hdi & Hpl & Hop3) & Hsucc).
+  pose proof (pgq_operand3_2 w d i di (HM d) Hop3) as Hop.
+  destruct (pgx_W_get w d HW) as [Kd Hstd]. destruct (pgx_W_get w (negb d) HW) as [Ks Hsts].
+  destruct (HM d) as [Hwf _].
+  assert (Hsrt : pgs_doc (pg_get w (negb d))) by (destruct HS; destruct d; assumption).
+  pose proof (pgx_K_flat _ _ (pgx_st_flat _ _ Hstd)) as HK.
+  assert (Hfin : forall (w' : pg_world) (e : option pg_err) (s' : pg_lists) (raise_ : bool),
+            (pgx_marks2 w' = s' /\ pg_is_err (pg_res_of e) = raise_ /\ (exists Kd', pgx_st (pg_get w' d) Kd') /\ pgx_st (pg_get w' (negb d)) Ks) ->
+            pgx_marks2 w' = s' /\ pg_is_err (pg_res_of e) = raise_ /\ pgx_W w').
+  { intros w' e s' raise_ (A & B & (Kd' & C) & D). split; [exact A|split; [exact B|exact (pgq_W_of_gets w' d Kd' Ks C D)]]. }
+  unfold pgq_foreign in Hf.
+  destruct o as [d0 h first|d0 h first|d0 h before r|d0 h|d0 i0|d0 h|d0 i0 v|d0 i0 j|d0|d0|d0|d0 i0|d0 v|d0 i0 h|d0 i0]; try discriminate;
+    destruct (pg_norm w h) as [v|b i1] eqn:En; try discriminate; destruct (Bool.eqb b d0) eqn:Eb; try discriminate;
+    inversion Hf; subst d0 i1; apply Bool.eqb_false_iff in Eb;
+    assert (b = negb d) by (destruct b, d; cbn; congruence); subst b;
+    pose proof (pgq_norm_obj_eq _ _ _ _ En) as Eh; subst h.
+  - (* addPage *)
+    cbn [pg_step pgx_abs] in *. rewrite HK. destruct first.
+    + destruct (pg_insert w d (PhObj (negb d) i) 0) as [w' e] eqn:Ei. cbn [snd] in Hsucc.
+      assert (He : e = None) by (destruct e; [discriminate|reflexivity]). subst e.
+      pose proof (pgq_step_insert_foreign w d i O Kd Ks di Hstd Hsts Hsall Hwf Hop Hsrt Hdi Hpl ltac:(lia)) as H. cbv zeta in H. cbn [Z.of_nat] in H.
+      rewrite Ei in H. cbn [snd] in H. specialize (H eq_refl). cbv zeta in H.
+      destruct (pg_spec_step _ _) as [s' raise_]. apply (Hfin w' None s' raise_ H).
+    + rewrite (pgx_count_st _ Kd (pgx_st_flat _ _ Hstd)) in *. unfold pg_len in *.
+      destruct (pg_insert w d (PhObj (negb d) i) (Z.of_nat (length Kd))) as [w' e] eqn:Ei. cbn [snd] in Hsucc.
+      assert (He : e = None) by (destruct e; [discriminate|reflexivity]). subst e.
+      pose proof (pgq_step_insert_foreign w d i (length Kd) Kd Ks di Hstd Hsts Hsall Hwf Hop Hsrt Hdi Hpl ltac:(lia)) as H. cbv zeta in H.
+      rewrite Ei in H. cbn [snd] in H. specialize (H eq_refl). cbv zeta in H.
+      destruct (pg_spec_step _ _) as [s' raise_]. apply (Hfin w' None s' raise_ H).
+  - (* the helper's addPage *)
+    cbn [pg_step pgx_abs] in *. rewrite HK. destruct first.
+    + destruct (pg_insert w d (PhObj (negb d) i) 0) as [w' e] eqn:Ei. cbn [snd] in Hsucc.
+      assert (He : e = None) by (destruct e; [discriminate|reflexivity]). subst e.
+      pose proof (pgq_step_insert_foreign w d i O Kd Ks di Hstd Hsts Hsall Hwf Hop Hsrt Hdi Hpl ltac:(lia)) as H. cbv zeta in H. cbn [Z.of_nat] in H.
+      rewrite Ei in H. cbn [snd] in H. specialize (H eq_refl). cbv zeta in H.
+      destruct (pg_spec_step _ _) as [s' raise_]. apply (Hfin w' None s' raise_ H).
+    + destruct (pgx_all_st _ Kd Hstd) as (p1 & Eall & Hst1 & Hall1 & Hsim & Hr1).
+      pose proof (pgt_all (pg_get w d)) as Hdr. rewrite Eall in *. cbn [fst] in Hdr. destruct Hdr as (_ & Ho1 & _). cbv iota beta in *.
+      rewrite Hall1 in *. unfold pg_len in *.
+      destruct (pg_insert (pg_put w d p1) d (PhObj (negb d) i) (Z.of_nat (length Kd))) as [w' e] eqn:Ei. cbn [snd] in Hsucc.
+      assert (He : e = None) by (destruct e; [discriminate|reflexivity]). subst e.
+      pose proof (pgq_step_insert_foreign_after w d i (length Kd) Kd Ks di p1 Hstd Hsts Hsall Hwf Hop Hsrt Hst1 Hsim Hr1 Ho1 Hdi Hpl ltac:(lia)) as H. cbv zeta in H.
+      rewrite Ei in H. cbn [snd] in H. specialize (H eq_refl). cbv zeta in H.
+      destruct (pg_spec_step _ _) as [s' raise_]. apply (Hfin w' None s' raise_ H).
+  - (* addPageAt *)
+    cbn [pg_step pgx_abs] in *. rewrite HK.
+    destruct (pg_foreign_handle w d r); [cbn in Hsucc; discriminate|].
+    destruct (pgx_find_st _ Kd (pg_og_of w r) Hstd) as (p1 & Efind & Hst1 & Hall1 & Hinv1 & Hsim & Hr1).
+    pose proof (pgt_find (pg_get w d) (pg_og_of w r)) as Hdr. rewrite Efind in *. cbn [fst] in Hdr. destruct Hdr as (_ & Ho1 & _).
+    destruct (pg_index Kd (pg_og_of w r)) as [k|] eqn:E; [|cbn in Hsucc; discriminate].
+    cbv iota beta in *. pose proof (pg_index_lt _ _ _ E) as Hlt. destruct before.
+    + destruct (pg_insert (pg_put w d p1) d (PhObj (negb d) i) (Z.of_nat k)) as [w' e] eqn:Ei. cbn [snd] in Hsucc.
+      assert (He : e = None) by (destruct e; [discriminate|reflexivity]). subst e.
+      pose proof (pgq_step_insert_foreign_after w d i k Kd Ks di p1 Hstd Hsts Hsall Hwf Hop Hsrt Hst1 Hsim Hr1 Ho1 Hdi Hpl ltac:(lia)) as H. cbv zeta in H.
+      rewrite Ei in H. cbn [snd] in H. specialize (H eq_refl). cbv zeta in H.
+      destruct (pg_spec_step _ _) as [s' raise_]. apply (Hfin w' None s' raise_ H).
+    + replace (Z.of_nat k + 1)%Z with (Z.of_nat (S k)) in * by lia.
+      destruct (pg_insert (pg_put w d p1) d (PhObj (negb d) i) (Z.of_nat (S k))) as [w' e] eqn:Ei. cbn [snd] in Hsucc.
+      assert (He : e = None) by (destruct e; [discriminate|reflexivity]). subst e.
+      pose proof (pgq_step_insert_foreign_after w d i (S k) Kd Ks di p1 Hstd Hsts Hsall Hwf Hop Hsrt Hst1 Hsim Hr1 Ho1 Hdi Hpl ltac:(lia)) as H. cbv zeta in H.
+      rewrite Ei in H. cbn [snd] in H. specialize (H eq_refl). cbv zeta in H.
+      destruct (pg_spec_step _ _) as [s' raise_]. apply (Hfin w' None s' raise_ H).
 Qed.
